@@ -44,10 +44,11 @@ def check(run, ctx):
     ok = lc is not None and ast.unparse(lc) in (f"{blk}.end_line - {blk}.start_line + 1", f"1 + {blk}.end_line - {blk}.start_line", f"1 + ({blk}.end_line - {blk}.start_line)")
     (run.ok(D1, "line_count value", "end_line - start_line + 1") if ok else run.finding(D1, "build_violation", f"line_count:{norm(lc) if lc is not None else None}", "the written line count is not end_line - start_line + 1", bv.loc))
     for fq in (f"{PKG}.violation_filter.ViolationFilter._extract_line_count", f"{PKG}.violation_generator.ViolationGenerator._extract_line_count"):
-        f = repo.func(fq)
+        f = repo.func_by_role(fq, "reads the line count back out of the message with two .index(<delimiter>) calls",
+                              lambda g: sum(1 for x in ast.walk(g.node) if is_call_named(x, "index") and x.args and isinstance(x.args[0], ast.Constant)) >= 2)
         idx = [n.args[0].value for n in sorted((x for x in ast.walk(f.node) if is_call_named(x, "index") and x.args and isinstance(x.args[0], ast.Constant)), key=lambda x: (x.lineno, x.col_offset))]
         ok = len(idx) == 2 and before.endswith(idx[0]) and after.startswith(idx[1])
-        (run.ok(D1, f"reader {f.cls.name}", f"between {idx[0]!r} and {idx[1]!r}") if ok else run.finding(D1, f"{f.cls.name}._extract_line_count", f"delimiters:{idx}", f"reader delimiters {idx} do not match the writer's {before[-1:]!r} ... {after[:6]!r}", f.loc))
+        (run.ok(D1, f"reader {f.cls.name}", f"between {idx[0]!r} and {idx[1]!r}") if ok else run.finding(D1, f"{f.cls.name}.{f.name}", f"delimiters:{idx}", f"reader delimiters {idx} do not match the writer's {before[-1:]!r} ... {after[:6]!r}", f.loc))
 
     D2 = run.rule("D2", "occurrence count, 'Also found in' list and the per-block loop use one list", floor=3)
     oc = expand_locals(bv.node, bmc.args[1])
